@@ -18,6 +18,8 @@ VERIF = os.path.dirname(os.path.dirname(os.path.abspath(__file__)))
 
 REGISTRY = {
     "C14": {"module": "engines.c14_lookup", "level": "exploration", "quick": 36000, "thorough": 700000},
+    "C15": {"module": "engines.c15_modfiles", "level": "fault_enumeration", "quick": 1500, "thorough": 30000,
+            "per_run_timeout": 180.0, "determinism_sample": 48, "shrink_budget": 60.0},
 }
 
 PINNED_HASHSEED = "0"
